@@ -1433,7 +1433,19 @@ class DiameterMessage:
 
         while index < len(stream):
             header_stream = stream[index:index+DIAMETER_HEADER_LENGTH]
+            if len(header_stream) < DIAMETER_HEADER_LENGTH:
+                raise DiameterMessageError("invalid bytes stream. It "\
+                                           "contains a truncated Diameter "\
+                                           "Header")
+
             header = DiameterHeader.load(header_stream)
+
+            #: A Message Length shorter than the Diameter Header itself would
+            #: never let the stream be consumed.
+            if header.get_length() < DIAMETER_HEADER_LENGTH:
+                raise DiameterMessageError("invalid bytes stream. The "\
+                                           "Message Length field value is "\
+                                           "shorter than the Diameter Header")
 
             lower_limit = index + DIAMETER_HEADER_LENGTH
             upper_limit = index + header.get_length()
